@@ -165,7 +165,10 @@ FAMILIES = {
     # focus families: small hint / object sets so that equal-but-not-identical hints, redefinitions and
     # failing-then-succeeding references really meet inside one history
     'redefine': (['K', 'list[K]', 'Optional[K]', 'type[K]', '"K"', 'list["K"]', 'dict[str, K]', 'Optional["K"]', 'dict[str, "K"]',
-                  'tuple["K", ...]', 'list["K"]'],
+                  'tuple["K", ...]', 'list["K"]',
+                  # module-qualified reference objects (what typing makes of strings in a module's annotations)
+                  'ForwardRef("K", module="vlib.hintenv")', 'list[ForwardRef("K", module="vlib.hintenv")]',
+                  'Optional[ForwardRef("K", module="vlib.hintenv")]'],
                  ['K()', 'KOLD', '[K()]', '[KOLD]', 'K', '{"a": K()}', 'None', '1', '(K(),)', '{"a": KOLD}', '[K()]']),
     'forward': (['"LaterCls"', 'list["LaterCls"]', 'Optional["LaterCls"]', 'Union[int, "LaterCls"]', 'dict[str, "LaterCls"]', 'int'],
                 ['LATER', '[LATER]', '1', 'None', '{"a": LATER}', '"a"']),
@@ -428,9 +431,14 @@ def main():
         [st for g in (1, 2) for st in (
             ('query', "ib(lambda: [K()], lambda: list[\"K\"], 'CONF0')"), ('query', "ib(lambda: {\"a\": K()}, lambda: dict[str, \"K\"], 'CONF0')"),
             ('query', "die(lambda: K(), lambda: Optional[\"K\"], 'CONF0')"), ('query', "ib(lambda: K(), lambda: \"K\", 'CONF0')"),
-            ('query', "ib(lambda: (K(),), lambda: tuple[\"K\", ...], 'CONF0')"), ('ns', NS_OPS['REDEFINE_K'].format(n=g)),
+            ('query', "ib(lambda: (K(),), lambda: tuple[\"K\", ...], 'CONF0')"),
+            ('query', "ib(lambda: K(), lambda: ForwardRef(\"K\", module=\"vlib.hintenv\"), 'CONF0')"),
+            ('query', "call(lambda: list[ForwardRef(\"K\", module=\"vlib.hintenv\")], lambda: [K()], 'CONF0')"),
+            ('ns', NS_OPS['REDEFINE_K'].format(n=g)),
             ('query', "ib(lambda: [KOLD], lambda: list[\"K\"], 'CONF0')"))]
-        + [('query', "ib(lambda: [K()], lambda: list[\"K\"], 'CONF0')"), ('query', "die(lambda: K(), lambda: Optional[\"K\"], 'CONF0')")],
+        + [('query', "ib(lambda: [K()], lambda: list[\"K\"], 'CONF0')"), ('query', "die(lambda: K(), lambda: Optional[\"K\"], 'CONF0')"),
+           ('query', "ib(lambda: K(), lambda: ForwardRef(\"K\", module=\"vlib.hintenv\"), 'CONF0')"),
+           ('query', "call(lambda: list[ForwardRef(\"K\", module=\"vlib.hintenv\")], lambda: [K()], 'CONF0')")],
         # a decorated class hot-reloaded five times under long-lived callables naming it
         [('ns', DEFINE_WF)] + [st for g in range(1, 6) for st in (
             ('ns', DEFINE_W.format(n=g)), ('query', '_ans(lambda: _wf(W()))'), ('query', '_ans(lambda: _wf2([W()]))'),
